@@ -25,7 +25,7 @@ META = {
                     'before it, and every later valid step and query behaves per C15'],
 }
 
-POOL_SYMS = ['abdup', 'dup2', 'ax', 'ay', 'az', 'a1x', 'aw', 'dx', 'dy', 'dz', 'dv', 'QQY', 'sqa2']
+POOL_SYMS = ['dw', 'abdup', 'dup2', 'ax', 'ay', 'az', 'a1x', 'aw', 'dx', 'dy', 'dz', 'dv', 'QQY', 'sqa2']
 
 
 def setup(mode):
